@@ -118,7 +118,7 @@ func init() {
 		"sms_setup": 2, "sms_confirm": 2, "totp_remove": 1, "sms_remove": 1, "probe": 6, "drop_session": 5, "copy_cookie": 2, "stale_cookie": 3,
 		"set_cookie": 1, "advance": 4, "op_lock": 1, "op_unlock": 1, "op_update_password": 1, "replay": 4, "recovery_regen": 1,
 		"everify_start": 1, "everify_end": 1, "login_get": 1, "app_session_put": 1, "recover_end_get": 1, "op_start_confirm": 1,
-		"totp_setup_get": 1, "sms_setup_get": 1,
+		"totp_setup_get": 1, "sms_setup_get": 1, "restart": 2,
 	}
 	loginTemplates := []string{"login_ok", "remember_cycle", "recover_flow", "register_flow", "oauth_flow", "otp_flow", "fail_burst", "forged_cookie", "pw_near_miss"}
 	register(&Profile{
@@ -529,7 +529,7 @@ func init() {
 		},
 		Gen: func(r *Rng, tier string) *genProfile {
 			return &genProfile{MaxSteps: steps(tier, 40, 100), Default: 0, FollowUp: 55, Template: 35,
-				Templates: []string{"oauth_flow", "oauth_flow", "oauth_cross", "oauth_remember", "login_ok"},
+				Templates: []string{"oauth_flow", "oauth_flow", "oauth_cross", "oauth_remember", "login_ok", "oauth_provider_mixup"},
 				Weights: withW(loginWeights, map[string]int{"oauth2_start": 20, "oauth2_callback": 24, "replay": 10, "logout": 5, "login": 5, "probe": 3,
 					"recover_start": 0, "recover_end": 0, "register": 1, "totp_validate": 1, "sms_validate": 1, "op_lock": 2, "op_unlock": 1}),
 				BadSecret: 35, FaultRate: []int{0, 0, 60}[r.Intn(3)], ThreshGaps: 5, SmallGaps: 15, Redir: 15}
